@@ -25,7 +25,7 @@ Your task: produce TWO independent, realistic source changes (call them A and B)
 How to run things (the library is pure Python; use this interpreter and PYTHONPATH so that your worktree, not the installed copy, is imported):
   cd {wt} && PYTHONPATH={wt} /venv/bin/python -c "import droplets; print(droplets.__file__)"     # must print a path under {wt}
   cd {wt} && PYTHONPATH={wt} /venv/bin/python -m pytest -q -p no:cacheprovider --timeout=900 -x -n 8 tests     # full suite (112 tests, ~1 min); must stay green
-There is no network. Do not install anything.
+There is no network. Do not install anything. Never use `git stash` (the stash is shared between worktrees of the same repository and other people work in sibling worktrees); to set a change aside use `git diff > file; git checkout -- .` and `git apply file`.
 
 For each of A and B deliver, in {out}:
   - patchA.diff / patchB.diff : output of `git -C {wt} diff` for that change alone relative to HEAD (make change A, save diff, `git -C {wt} checkout -- .`, then make change B, save diff, revert again). Each patch must apply cleanly to a pristine HEAD with `git apply`.
